@@ -68,7 +68,7 @@ typedef ScriptShellT<IgnoredUtestShell> IgnoredScriptShell;
 void scripted_check(UtestShell* cur, int which, bool pass, const char* file, size_t line, bool c_style) {
     static const unsigned char b1[2] = {1, 2}, b2[2] = {1, 3};
     const TestTerminator& T = c_style ? (const TestTerminator&)TestTerminatorWithoutExceptions() : (const TestTerminator&)NormalTestTerminator();
-    switch (which % 12) {
+    switch (which % 15) {
     case 0: cur->assertTrue(pass, "CHECK", "scripted", NULLPTR, file, line, T); break;
     case 1: cur->assertLongsEqual(1, pass ? 1 : 2, NULLPTR, file, line, T); break;
     case 2: cur->assertUnsignedLongsEqual(1u, pass ? 1u : 2u, NULLPTR, file, line, T); break;
@@ -81,8 +81,14 @@ void scripted_check(UtestShell* cur, int which, bool pass, const char* file, siz
     case 9: cur->assertCstrNEqual("ab", pass ? "ac" : "bc", 1, NULLPTR, file, line, T); break;
     case 10: cur->assertBitsEqual(1, pass ? 1 : 2, 0xff, 1, NULLPTR, file, line, T); break;
     case 11: if (pass) cur->assertSignedBytesEqual(1, 1, NULLPTR, file, line, T); else cur->fail("scripted FAIL", file, line, T); break;
+    case 12: cur->assertCstrEqual(pass ? NULLPTR : "a", NULLPTR, NULLPTR, file, line, T); break;              // the NULL-operand branches
+    case 13: cur->assertCstrNEqual(NULLPTR, pass ? NULLPTR : "a", 1, NULLPTR, file, line, T); break;
+    case 14: cur->assertBinaryEqual(pass ? NULLPTR : b1, NULLPTR, 2, NULLPTR, file, line, T); break;
     }
 }
+// A C-style check leaves a failing test by longjmp and never by a C++ exception (it is what C code and code that must not
+// throw use): the failing C-style checks are made from a function that is declared noexcept, so an exception ends the process.
+void scripted_c_check(UtestShell* cur, int which, const char* file, size_t line) noexcept { scripted_check(cur, which, false, file, line, true); }
 void ScriptTest::phase(int ph) {
     if (ph == 0) g_exec[idx]++;
     int o = g_exec[idx] <= 1 ? g_spec[idx].kind[ph] : g_spec[idx].later[ph]; int t = idx;
@@ -90,7 +96,7 @@ void ScriptTest::phase(int ph) {
     for (int st = 1; st <= 2; st++) {
         int which = t * 5 + ph * 3 + st + g_exec[idx];
         if ((o == CPP_S1 && st == 1) || (o == CPP_S2 && st == 2)) scripted_check(cur, which, false, "script.cpp", stmt_line(t, ph, st), false);
-        if ((o == C_S1 && st == 1) || (o == C_S2 && st == 2)) scripted_check(cur, which, false, "script.cpp", stmt_line(t, ph, st), true);
+        if ((o == C_S1 && st == 1) || (o == C_S2 && st == 2)) scripted_c_check(cur, which, "script.cpp", stmt_line(t, ph, st));
 #if CPPUTEST_HAVE_EXCEPTIONS
         if (o == THROW_STD && st == 1) throw std::runtime_error("scripted std exception");
         if (o == THROW_INT && st == 1) throw 42;
